@@ -581,7 +581,7 @@ def _adds_every(facts, body, it, dst, src_param, src_path, rc):
                 if e.param == 1 and tuple(e.path) == tuple(dst) and e.kind == 'w' and e.how in KEEP_CALLS:
                     sites.append(bb)
         if sites and lp.must(rc, sites) and lp.always_entered(rc):
-            return True, sites[0]
+            return True, lp.head      # (the loop, as the place every path has to come through)
     return False, None
 
 
